@@ -15,9 +15,18 @@ struct Case {
     with_cols: bool,
     /// the definition is written `SELECT * FROM t [WHERE …]` (output columns keep the base names)
     star: Option<usize>,
+    /// column references written without the table / view qualifier
+    unq: bool,
 }
 
 fn forms(c: &Case, db2: &DbDef) -> (String, String, String, String) {
+    UNQUALIFIED.with(|u| u.set(c.unq));
+    let r = forms_inner(c, db2);
+    UNQUALIFIED.with(|u| u.set(false));
+    r
+}
+
+fn forms_inner(c: &Case, db2: &DbDef) -> (String, String, String, String) {
     let mut body_sql = c.body.sql(&c.dbd);
     if c.star.is_some() {
         let at = body_sql.find(" FROM ").unwrap();
@@ -134,6 +143,7 @@ fn run_case(c: &mut Case, r: &mut Rng, model: &mut model::Model, rep: &mut Repor
     if c.star.is_some() {
         rep.count("body_select_star");
     }
+    rep.count(if c.unq { "names_unqualified" } else { "names_qualified" });
     Query::Core(c.body.clone()).features(&mut feats);
     for f in &feats {
         rep.count(&format!("body_{}", f));
@@ -233,7 +243,7 @@ fn main() {
             body.select = (0..dbd.tables[t].schema.cols.len()).map(E::Col).collect();
             star = Some(t);
         }
-        let mut c = Case { dbd: dbd.clone(), body, star, outer: Core { from: From::Table(3), where_: None, group: None, select: vec![], distinct: false, order_by: vec![], limit: None, offset: 0 }, with_cols: star.is_none() && r.chance(1, 3) };
+        let mut c = Case { dbd: dbd.clone(), body, star, unq: r.chance(1, 4), outer: Core { from: From::Table(3), where_: None, group: None, select: vec![], distinct: false, order_by: vec![], limit: None, offset: 0 }, with_cols: star.is_none() && r.chance(1, 3) };
         let db2 = with_v(&c);
         let og = QGen { db: &db2, subqueries: false, force_from: Some(From::Table(3)) };
         c.outer = og.gen_core(&mut r, true);
